@@ -249,8 +249,22 @@ Proof.
 Qed.
 
 (** an empty result prints No data; on a terminal at most height-1 lines are printed *)
-Theorem empty_table : forall st cols, format_aggregate st (mkT cols []) = Ok (st, lit "No data" ++ [10%N]).
+Theorem empty_table : forall st cols,
+  format_aggregate st (mkT cols []) = Ok (st, firstn (max_width st) (lit "No data") ++ [10%N]).
 Proof. intros st cols. reflexivity. Qed.
+
+(** ... which is the whole of `No data` whenever the terminal has at least 7 columns (and without a terminal),
+    and never wider than the terminal *)
+Lemma empty_table_wide : forall st cols, 7 <= max_width st ->
+  format_aggregate st (mkT cols []) = Ok (st, lit "No data" ++ [10%N]).
+Proof.
+  intros st cols H. rewrite empty_table. f_equal. f_equal.
+  change (lit "No data") with [78; 111; 32; 100; 97; 116; 97]%N.
+  remember (max_width st) as m eqn:Em. clear Em.
+  do 7 (destruct m as [|m]; [lia|]). cbn [firstn]. destruct m; reflexivity.
+Qed.
+Lemma empty_table_fits : forall st, length (firstn (max_width st) (lit "No data")) <= max_width st.
+Proof. intros st. rewrite firstn_length. lia. Qed.
 
 (* STATEMENT FALSE: height_clip, i.e.
      forall ws w h t st' txt,
